@@ -273,6 +273,18 @@ class Mon:
                     r = False
                 if r:
                     ctx.violation("cusip/wrong-length-accepted", f"validate_cusip({t!r}) is True", {"kind": "len", "name": "cusip", "text": t})
+            # SEDOL: "fails validation" is observed through sedol2isin(); a 7-character SEDOL that begins with 0 minus that 0, or with
+            # zeros put in front, is a string of the wrong length - not the same SEDOL
+            b6 = "0" + "".join(rng.choice(ref.SEDOL_ALPHABET) for _ in range(5))
+            good7 = b6 + ref.sedol_check(b6)
+            for t in (good7[1:], "0" + good7, "00" + good7, good7 + good7[-1], good7[:-1], good7 + pad, pad + good7, "", "0", "00000"):
+                ctx.ev()
+                ctx.count("padded_ids")
+                try:
+                    r = u.sedol2isin(t)
+                except Exception:
+                    continue
+                ctx.violation("sedol/wrong-length-accepted", f"sedol2isin({t!r}) -> {r!r} (valid SEDOL: {good7!r})", {"kind": "len-sedol", "text": t})
             b = rng.choice(sorted(self.known)) + "".join(rng.choice(ref.ALNUM) for _ in range(9))
             good = b + ref.isin_check(b)
             for t in (good + good[-1], good[:-1], good + "0", good[:2] + "0" + good[2:], good + pad, pad + good, good[:2] + pad + good[2:]):
@@ -415,6 +427,13 @@ def replay(ctx, case):
         m.sedol(case["base"], full=True)
     elif kind == "isin":
         m.isin(case["base"], full=True)
+    elif kind == "len-sedol":
+        ctx.ev()
+        try:
+            r = m.u.sedol2isin(case["text"])
+            ctx.violation("sedol/wrong-length-accepted", f"sedol2isin({case['text']!r}) -> {r!r}", case)
+        except Exception:
+            pass
     elif kind == "len":
         from ofxtools import utils
         fn = getattr(utils, "validate_" + case["name"])
